@@ -8,6 +8,7 @@ import (
 	"github.com/zenon-network/go-zenon/chain/nom"
 	"github.com/zenon-network/go-zenon/common"
 	"github.com/zenon-network/go-zenon/common/types"
+	"github.com/zenon-network/go-zenon/vm/constants"
 	"github.com/zenon-network/go-zenon/vm/embedded/definition"
 )
 
@@ -289,6 +290,11 @@ func (block *AccountBlock) prefetchToken(chain chain.Chain) error {
 	store := chain.GetFrontierMomentumStore()
 	if block.TokenStandard != types.ZeroTokenStandard {
 		token, err := store.GetTokenInfoByTs(block.TokenStandard)
+		// a block may name a token standard the token contract has no record of (a zero-amount send; verifier
+		// and vm accept it): such a block has no token record, it is still a block of the ledger
+		if err == constants.ErrDataNonExistent {
+			return nil
+		}
 		if err != nil {
 			return err
 		}
